@@ -40,11 +40,12 @@ pub fn prop() -> Prop {
 }
 
 fn describe(ctx: &Ctx) {
-    ctx.rule("generated workbooks (1..6 sheets with legal names incl. XML specials / non-ASCII, states unset/visible/hidden/veryHidden with >=1 visible, active tab on a visible sheet, optionally sheets removed again before saving; per sheet 0..24 each of merged ranges, defined names (workbook/sheet scope; cell, range, multi-area, constant/formula; sheet names needing quotes), hyperlinks (external/internal, tooltip), comments (unsorted, authors with duplicates/empty/non-ASCII, 1..3 runs, with and without note shape), data validations, conditional formats (every rule kind the API offers, dxf), auto-filter, tab colour, panes + selections, page setup/margins/print options/printer settings, header/footer, sheet and workbook protection flags) built through the public API, saved to memory (standard or light writer) and reloaded eagerly; the projection (public getters) before saving and after reloading is compared as sets keyed by anchor cell / range / scope+name, and the hyperlinks, merged ranges, defined names, sheet list and active tab are also decoded from the written bytes without the library. Sub-checks: roundtrip (everything, clean), hyperlinks (2..24 links per sheet plus what shares their relationship numbering; 4 saves per case), dirty (adds the input features of the open findings). Non-trivial = some sheet has >=2 annotations of one kind, or a sheet name / defined name / hyperlink target / author contains an XML special or non-ASCII character; distinct by full case");
+    ctx.rule("generated workbooks (1..6 sheets with legal names incl. XML specials / non-ASCII, states unset/visible/hidden/veryHidden with >=1 visible, active tab on a visible sheet, optionally sheets removed again before saving; per sheet 0..24 each of merged ranges, defined names (workbook/sheet scope; cell, range, multi-area, constant/formula; sheet names needing quotes), hyperlinks (external/internal, tooltip), comments (unsorted, authors with duplicates/empty/non-ASCII, 1..3 runs, with and without note shape), data validations, conditional formats (every rule kind the API offers, dxf), auto-filter, tab colour, panes + selections, page setup/margins/print options/printer settings, header/footer, sheet and workbook protection flags) built through the public API, saved to memory (standard or light writer) and reloaded eagerly; the projection (public getters) before saving and after reloading is compared as sets keyed by anchor cell / range / scope+name, and the hyperlinks, merged ranges, defined names, sheet list and active tab are also decoded from the written bytes without the library. Stage two (half of the cases): the bytes just written are reopened lazily (read_reader(.., false)), a generated subset of sheets is materialised in a generated order through read_sheet / get_sheet_mut / get_sheet_by_name_mut / read_sheet_by_name / read_sheet_collection, optionally a cell is edited and a sheet is added, removed or renamed while others are still unloaded, the workbook is saved again, reloaded eagerly and compared in the same way (keys prefixed lazy:). Sub-checks: roundtrip (everything, clean), hyperlinks (2..24 links per sheet, a third of them internal, plus what shares their relationship numbering: printer settings, comments, a table; 4 saves per case), dirty (adds the input features of the open findings). Non-trivial = some sheet has >=2 annotations of one kind, or a sheet name / defined name / hyperlink target / author contains an XML special or non-ASCII character; distinct by full case");
     ctx.assume("passwords of protections are not generated (property C15)");
     ctx.assume("defined-name texts with a top-level double quote, or with a top-level comma between pieces that are not cell references (print titles), are not generated: DefinedName::set_address changes them when they are handed to the API, before any save");
     ctx.assume("formula-like texts (validation formulas, conditional-format formulas, defined-name formulas) carry no leading/trailing blanks; header/footer texts with such blanks only in the dirty stratum");
     ctx.assume("for workbook-scope defined names the list that stores them (workbook or sheet) is not compared; for sheet-scope names the owning sheet is compared and localSheetId must name the owner after reload");
+    ctx.assume("stage two removes or renames only sheets that no defined name refers to, and removes a sheet only when the active tab still points at a visible sheet afterwards (what such an edit does to names and to the active tab is the edit's business, not save/reload's)");
     ctx.assume("the expected value of every item is what the public getters show before saving; the spec is checked against that view first (mismatch = discard, none observed)");
 }
 
@@ -52,6 +53,42 @@ fn describe(ctx: &Ctx) {
 pub struct Case {
     pub wb: AnnotWb,
     pub light: bool,
+    /// stage two: reopen the saved bytes lazily, materialise some sheets, save again
+    #[serde(default)]
+    pub lazy: Option<LazyPlan>,
+}
+
+/// What is done to the lazily reopened workbook (`read_reader(.., false)`) before it is saved a
+/// second time.  Sheet indices are raw values mapped monotonically onto the sheet list of the
+/// moment.
+#[derive(Debug, Clone, Serialize, Deserialize)]
+pub struct LazyPlan {
+    pub steps: Vec<LazyStep>,
+    /// light writer for the second save
+    pub light: bool,
+}
+
+#[derive(Debug, Clone, Serialize, Deserialize)]
+pub enum LazyStep {
+    /// `Spreadsheet::read_sheet(i)`
+    ReadSheet(u16),
+    /// `Spreadsheet::get_sheet_mut(&i)`
+    GetSheetMut(u16),
+    /// `Spreadsheet::get_sheet_by_name_mut(name)`
+    GetByNameMut(u16),
+    /// `Spreadsheet::read_sheet_by_name(name)`
+    ReadByName(u16),
+    /// `Spreadsheet::read_sheet_collection()`
+    ReadAll,
+    /// materialise through `get_sheet_mut` and set one cell's text
+    EditCell { sheet: u16, col: u32, row: u32, text: String },
+    /// `new_sheet` (appended, visible)
+    AddSheet,
+    /// `remove_sheet` of the first sheet at or behind the index that no defined name refers to
+    /// and whose removal leaves the active tab on a visible sheet (skipped when there is none)
+    RemoveSheet(u16),
+    /// `set_sheet_name` of the first sheet at or behind the index that no defined name refers to
+    Rename(u16),
 }
 
 // ---------------------------------------------------------------------------------------
@@ -895,6 +932,24 @@ fn label(spec: &AnnotWb, obs: &mut Obs) {
         if s.links.iter().any(|l| special(&l.target)) {
             obs.class("hyperlink:special-target");
         }
+        // an internal link that is written before an external one (the writers go by row, then
+        // column): the sheet part and the relationships part must agree that only external
+        // links take a relationship id
+        let mut sorted: Vec<&LinkSpec> = s.links.iter().collect();
+        sorted.sort_by_key(|l| (l.row, l.col));
+        let first_internal = sorted.iter().position(|l| l.internal);
+        let last_external = sorted.iter().rposition(|l| !l.internal);
+        if let (Some(a), Some(bq)) = (first_internal, last_external) {
+            if a < bq {
+                obs.class("hyperlink:internal-before-external");
+                obs.class(format!(
+                    "hyperlink:internal-before-external{}{}{}",
+                    if s.comments.is_empty() { "" } else { "+comments" },
+                    if s.page.object_data.is_some() { "+printer-settings" } else { "" },
+                    if s.table.is_some() { "+table" } else { "" }
+                ));
+            }
+        }
         if s.comments.iter().any(|c| c.author.is_empty()) {
             obs.class("comment:empty-author");
         }
@@ -966,26 +1021,231 @@ fn check_rounds(case: &Case, obs: &mut Obs, rounds: usize) -> Verdict {
         return Verdict::Discard(format!("pre-save model mismatch: {}", e));
     }
     let mut fails = Fails::new();
-    for _ in 0..rounds {
+    for round in 0..rounds {
         let bytes = match guard(|| save(&book, case.light)) {
             Ok(Ok(b)) => b,
             Ok(Err(e)) => return Verdict::fail("save/error", e),
             Err(p) => return Verdict::fail(format!("save/panic:{}", p.site()), p.short()),
         };
+        let mut base: Option<Proj> = None;
         match guard(|| load(&bytes)) {
             Ok(Ok(loaded)) => {
                 let got = project(&loaded);
                 fails.extend(diff(&exp, &got));
+                base = Some(got);
             }
             Ok(Err(e)) => fails.push(("reload/error".to_string(), e)),
             Err(p) => fails.push((format!("reload/panic:{}", p.site()), p.short())),
         }
         file_agrees(&exp, &bytes, &mut fails);
+        // stage two: the same statement on the lazy code path.  The workbook of this stage is the
+        // file just written, so its expectation starts from what the eager reload of that file
+        // showed (identical to `exp` whenever stage one held).
+        if let (Some(plan), Some(base)) = (&case.lazy, &base) {
+            lazy_stage(plan, base, &bytes, round == 0, obs, &mut fails);
+        }
         if !fails.is_empty() {
             break;
         }
     }
     verdict_of(fails)
+}
+
+/// Sheets that a defined name refers to in any way (owner of a sheet-scope name, sheet of an
+/// area, or mentioned in a formula text): renaming or removing those would change defined
+/// names by the rules of the edit itself, which is not what this property is about.
+fn sheets_in_names(p: &Proj) -> BTreeSet<String> {
+    let mut busy = BTreeSet::new();
+    for (anchor, item) in &p.names {
+        let scope = anchor.split('\u{1}').next().unwrap_or("");
+        if let Some(n) = scope.strip_prefix("sheet:") {
+            busy.insert(n.to_string());
+        }
+        let text = &item[1].1;
+        if let Some(areas) = text.strip_prefix("areas:") {
+            for a in areas.split('\u{2}') {
+                busy.insert(a.split('\u{1}').next().unwrap_or("").to_string());
+            }
+        } else {
+            for s in &p.sheets {
+                if text.contains(&s.name) || text.contains(&s.name.replace('\'', "''")) {
+                    busy.insert(s.name.clone());
+                }
+            }
+        }
+    }
+    busy
+}
+
+fn fresh_sheet_name(base: &str, taken: &[SheetProj]) -> String {
+    let mut k = 0;
+    loop {
+        let n = if k == 0 { base.to_string() } else { format!("{} {}", base, k) };
+        if !taken.iter().any(|s| s.name.to_lowercase() == n.to_lowercase()) {
+            return n;
+        }
+        k += 1;
+    }
+}
+
+/// Apply the plan to the lazily opened workbook and, in step, to the expectation.
+fn run_plan(book: &mut Spreadsheet, plan: &LazyPlan, exp: &mut Proj, labels: &mut Vec<String>) {
+    let busy = sheets_in_names(exp);
+    // loaded[i] belongs to exp.sheets[i]
+    let mut loaded: Vec<bool> = vec![false; exp.sheets.len()];
+    let mut original: Vec<bool> = vec![true; exp.sheets.len()];
+    let mut list_change_while_unloaded = false;
+    let mut edited = false;
+    for st in &plan.steps {
+        let n = exp.sheets.len();
+        match st {
+            LazyStep::ReadSheet(i) => {
+                let i = pick_idx(*i, n);
+                book.read_sheet(i);
+                loaded[i] = true;
+            }
+            LazyStep::GetSheetMut(i) => {
+                let i = pick_idx(*i, n);
+                let _ = book.get_sheet_mut(&i).expect("sheet index in range");
+                loaded[i] = true;
+            }
+            LazyStep::GetByNameMut(i) => {
+                let i = pick_idx(*i, n);
+                let name = exp.sheets[i].name.clone();
+                let _ = book.get_sheet_by_name_mut(&name).expect("sheet of that name exists");
+                loaded[i] = true;
+            }
+            LazyStep::ReadByName(i) => {
+                let i = pick_idx(*i, n);
+                let name = exp.sheets[i].name.clone();
+                book.read_sheet_by_name(&name);
+                loaded[i] = true;
+            }
+            LazyStep::ReadAll => {
+                book.read_sheet_collection();
+                loaded.iter_mut().for_each(|l| *l = true);
+            }
+            LazyStep::EditCell { sheet, col, row, text } => {
+                let i = pick_idx(*sheet, n);
+                book.get_sheet_mut(&i).expect("sheet index in range").get_cell_mut((*col, *row)).set_value_string(text.clone());
+                loaded[i] = true;
+                edited = true;
+            }
+            LazyStep::AddSheet => {
+                let name = fresh_sheet_name("Added&<1>", &exp.sheets);
+                book.new_sheet(name.clone()).expect("fresh name");
+                let mut scratch = umya_spreadsheet::new_file_empty_worksheet();
+                let sp = project_sheet(scratch.new_sheet(name).expect("fresh name"));
+                list_change_while_unloaded |= loaded.iter().any(|l| !*l);
+                exp.sheets.push(sp);
+                loaded.push(true);
+                original.push(false);
+            }
+            LazyStep::RemoveSheet(i) => {
+                let start = pick_idx(*i, n);
+                let active = exp.active_tab as usize;
+                let pick = (0..n).map(|k| (start + k) % n).find(|j| {
+                    if n < 2 || busy.contains(&exp.sheets[*j].name) || active >= n - 1 {
+                        return false;
+                    }
+                    // the sheet the active tab points at once j is gone
+                    let after = if active >= *j { active + 1 } else { active };
+                    exp.sheets[after].state == "visible"
+                });
+                if let Some(j) = pick {
+                    list_change_while_unloaded |= loaded.iter().any(|l| !*l);
+                    book.remove_sheet(j).expect("index in range");
+                    exp.sheets.remove(j);
+                    loaded.remove(j);
+                    original.remove(j);
+                }
+            }
+            LazyStep::Rename(i) => {
+                let start = pick_idx(*i, n);
+                if let Some(j) = (0..n).map(|k| (start + k) % n).find(|j| !busy.contains(&exp.sheets[*j].name)) {
+                    let name = fresh_sheet_name("Renamed 'x'", &exp.sheets);
+                    list_change_while_unloaded |= loaded.iter().any(|l| !*l);
+                    book.set_sheet_name(j, name.clone()).expect("fresh name");
+                    exp.sheets[j].name = name;
+                }
+            }
+        }
+    }
+    let orig_loaded: Vec<bool> = loaded.iter().zip(original.iter()).filter(|(_, o)| **o).map(|(l, _)| *l).collect();
+    let k = orig_loaded.iter().filter(|l| **l).count();
+    labels.push(format!("lazy:materialised-{}", if k == 0 { "none" } else if k == orig_loaded.len() { "all" } else { "some" }));
+    let needs_rels = |s: &SheetProj| {
+        !s.kinds["comment"].is_empty() || s.kinds["hyperlink"].iter().any(|(_, i)| i[0].1 == "external") || s.kinds["page-setup"].iter().any(|(_, i)| i[7].1 != "None")
+    };
+    let mut unloaded_before = false;
+    let mut behind = false;
+    let mut behind_rels = false;
+    for (i, l) in loaded.iter().enumerate() {
+        if !*l {
+            unloaded_before = true;
+        } else if unloaded_before {
+            behind = true;
+            behind_rels |= needs_rels(&exp.sheets[i]);
+        }
+    }
+    if behind {
+        labels.push("lazy:loaded-behind-unloaded".to_string());
+    }
+    if behind_rels {
+        labels.push("lazy:loaded-behind-unloaded+comments/links/printer-settings".to_string());
+    }
+    if list_change_while_unloaded {
+        labels.push("lazy:sheet-list-change-while-unloaded".to_string());
+    }
+    if edited {
+        labels.push("lazy:cell-edit".to_string());
+    }
+}
+
+fn lazy_stage(plan: &LazyPlan, base: &Proj, bytes: &[u8], first_round: bool, obs: &mut Obs, fails: &mut Fails) {
+    let mut book = match guard(|| umya_spreadsheet::reader::xlsx::read_reader(std::io::Cursor::new(bytes.to_vec()), false)) {
+        Ok(Ok(b)) => b,
+        Ok(Err(e)) => {
+            fails.push(("lazy:open/error".to_string(), format!("{:?}", e)));
+            return;
+        }
+        Err(p) => {
+            fails.push((format!("lazy:open/panic:{}", p.site()), p.short()));
+            return;
+        }
+    };
+    let mut exp = base.clone();
+    let mut labels = Vec::new();
+    if let Err(p) = guard(|| run_plan(&mut book, plan, &mut exp, &mut labels)) {
+        fails.push((format!("lazy:materialise/panic:{}", p.site()), p.short()));
+        return;
+    }
+    if first_round {
+        for l in labels {
+            obs.class(l);
+        }
+    }
+    let bytes2 = match guard(|| save(&book, plan.light)) {
+        Ok(Ok(b)) => b,
+        Ok(Err(e)) => {
+            fails.push(("lazy:save/error".to_string(), e));
+            return;
+        }
+        Err(p) => {
+            fails.push((format!("lazy:save/panic:{}", p.site()), p.short()));
+            return;
+        }
+    };
+    let mut f2 = Fails::new();
+    match guard(|| load(&bytes2)) {
+        Ok(Ok(loaded)) => f2.extend(diff(&exp, &project(&loaded))),
+        Ok(Err(e)) => f2.push(("reload/error".to_string(), e)),
+        Err(p) => f2.push((format!("reload/panic:{}", p.site()), p.short())),
+    }
+    file_agrees(&exp, &bytes2, &mut f2);
+    for (k, d) in f2 {
+        fails.push((format!("lazy:{}", k), format!("after lazy reopen, {:?}, second save: {}", plan.steps, d)));
+    }
 }
 
 fn check(case: &Case, obs: &mut Obs) -> Verdict {
@@ -1008,16 +1268,31 @@ fn check_clean(case: &Case, obs: &mut Obs) -> Verdict {
     check(case, obs)
 }
 
+pub fn lazy_plan() -> BoxedStrategy<LazyPlan> {
+    let step = prop_oneof![
+        3 => any::<u16>().prop_map(LazyStep::ReadSheet),
+        3 => any::<u16>().prop_map(LazyStep::GetSheetMut),
+        2 => any::<u16>().prop_map(LazyStep::GetByNameMut),
+        1 => any::<u16>().prop_map(LazyStep::ReadByName),
+        1 => Just(LazyStep::ReadAll),
+        2 => (any::<u16>(), crate::gen::wb::col_pos(), crate::gen::wb::row_pos(), crate::gen::text::nonempty_text(8)).prop_map(|(sheet, col, row, text)| LazyStep::EditCell { sheet, col, row, text }),
+        1 => Just(LazyStep::AddSheet),
+        1 => any::<u16>().prop_map(LazyStep::RemoveSheet),
+        1 => any::<u16>().prop_map(LazyStep::Rename),
+    ];
+    (prop::collection::vec(step, 0..=5), prop::bool::weighted(0.2)).prop_map(|(steps, light)| LazyPlan { steps, light }).boxed()
+}
+
 fn strategy_clean(t: Tier) -> BoxedStrategy<Case> {
-    (annot_wb(t, Feat::CLEAN), prop::bool::weighted(0.2)).prop_map(|(wb, light)| Case { wb, light }).boxed()
+    (annot_wb(t, Feat::CLEAN), prop::bool::weighted(0.2), prop::option::weighted(0.5, lazy_plan())).prop_map(|(wb, light, lazy)| Case { wb, light, lazy }).boxed()
 }
 
 fn strategy_links(t: Tier) -> BoxedStrategy<Case> {
-    (links_wb(t), prop::bool::weighted(0.2)).prop_map(|(wb, light)| Case { wb, light }).boxed()
+    (links_wb(t), prop::bool::weighted(0.2), prop::option::weighted(0.6, lazy_plan())).prop_map(|(wb, light, lazy)| Case { wb, light, lazy }).boxed()
 }
 
 fn strategy_dirty(t: Tier) -> BoxedStrategy<Case> {
-    (annot_wb(t, Feat::ALL), prop::bool::weighted(0.2)).prop_map(|(wb, light)| Case { wb, light }).boxed()
+    (annot_wb(t, Feat::ALL), prop::bool::weighted(0.2), prop::option::weighted(0.5, lazy_plan())).prop_map(|(wb, light, lazy)| Case { wb, light, lazy }).boxed()
 }
 
 fn subs() -> Vec<Box<dyn DynSub>> {
@@ -1025,23 +1300,23 @@ fn subs() -> Vec<Box<dyn DynSub>> {
         Box::new(Sub {
             name: "roundtrip",
             strategy: strategy_clean,
-            cases: (250, 6000),
+            cases: (220, 6000),
             check: check_clean,
-            max_shrink_iters: 1200,
+            max_shrink_iters: 800,
         }),
         Box::new(Sub {
             name: "hyperlinks",
             strategy: strategy_links,
             cases: (150, 3000),
             check: check_links,
-            max_shrink_iters: 1200,
+            max_shrink_iters: 500,
         }),
         Box::new(Sub {
             name: "dirty",
             strategy: strategy_dirty,
             cases: (30, 600),
             check,
-            max_shrink_iters: 1200,
+            max_shrink_iters: 800,
         }),
     ]
 }
